@@ -107,6 +107,10 @@ func (s *FullSink) Write(p []byte) (int, error) {
 	if !s.opened {
 		return 0, ErrSinkNotOpen
 	}
+	if len(p) == 0 {
+		// An empty write carries no data, so it is never unexpected.
+		return 0, nil
+	}
 	if s.phase == installPhaseDone {
 		return 0, ErrUnexpectedData
 	}
